@@ -230,6 +230,10 @@ def unmock_shapes(rng: random.Random, n):
         s = UShape(methods, skipped_at=skipped, api=rng.choice(["module", "module", "hidden"]),
                    provided=rng.random() < 0.4)
         for m in s.methods:
+            # a `&mut T<'_>` argument (hidden from the matcher as Impossible) must still reach the real function
+            if m.params and rng.random() < 0.15:
+                m.params[rng.randrange(len(m.params))] = "mut_wr"
+                m.asyncness = "sync"
             if m.asyncness == "async_fn" and any(KINDS[p].name in ("mut_u32", "mut_vec") for p in m.params):
                 m.asyncness = "sync"
             if m.form == "none":
@@ -263,12 +267,13 @@ class DShape:
     nested: bool = False       # the answer of req0 itself calls a provided method on the mock it receives
     assoc_const: bool = False  # the body reads an associated const that has a default and is overridden in the attribute
     weak: bool = False         # Rc/Arc: a Weak handle is alive during the call (it is not an owner)
+    prov_unmock: bool = False  # the provided method also has a registered real function (the default body still wins)
     consume: bool = False      # by-value receivers: the body ends by passing `self` on to a required method with the same receiver kind
 
     def key(self):
         return json.dumps([self.receiver, self.params, self.body_calls, self.route, self.partial, self.sole_owner,
                            self.borrowed_first, self.direct_calls, self.unmet, self.nested, self.assoc_const, self.weak,
-                           self.consume])
+                           self.consume, self.prov_unmock])
 
 
 def d_supported(s: DShape):
@@ -288,7 +293,10 @@ def render_default(s: DShape, idx: int):
                 "rc": "self: std::rc::Rc<Self>", "arc": "self: std::sync::Arc<Self>",
                 "pin": "self: std::pin::Pin<&mut Self>"}[s.receiver]
     params = ", ".join(f"p{i}: {sig_of(p, i)}" for i, p in enumerate(s.params))
-    probes = ", ".join(f"{PROBE_FN[k.base]}({k.canon_a.replace('{i}', str(i)).replace('a' + str(i), 'p' + str(i))})"
+    # inside the trait's default body a generic parameter is only known by its bounds: probe it through Debug
+    # (for the u16 it is instantiated with, that is the same text as pr_u16)
+    probes = ", ".join((f"format!(\"{{:?}}\", p{i})" if k.generic in ("method", "impl") else
+                        f"{PROBE_FN[k.base]}({k.canon_a.replace('{i}', str(i)).replace('a' + str(i), 'p' + str(i))})")
                        for i, k in enumerate(kinds))
     addrs = ", ".join(f"addr({k.canon_a.replace('{i}', str(i)).replace('a' + str(i), 'p' + str(i))})"
                       for i, k in enumerate(kinds) if k.is_ref)
@@ -303,15 +311,26 @@ def render_default(s: DShape, idx: int):
         body.append("        acc = acc.wrapping_add(Self::K);")
     body.append("        acc")
     reqv_item = f"    fn reqv({recv_sig}, x: u32) -> u32{where};\n" if s.consume else ""
+    # a type-generic provided method (own type parameter / impl Trait argument): only reached by fall-through
+    gens = [f"T{i}: std::fmt::Debug + Clone + Send + Sync + 'static" for i, k in enumerate(kinds) if k.generic == "method"]
+    prov_gen = f"<{', '.join(gens)}>" if gens else ""
     const_attr = ", const K: u32 = 15;" if s.assoc_const else ""
     const_item = "    const K: u32 = 5;\n" if s.assoc_const else ""
-    trait = f"""#[unimock(api=M{const_attr})]
+    unmock_attr, real_fn = "", ""
+    if s.prov_unmock:
+        entries = ["_"] * (5 if s.consume else 4) + [f"real_prov"] + ["_", "_"]
+        unmock_attr = f", unmock_with=[{', '.join(entries)}]"
+        dep_ty = "&(impl Tr + ?Sized)" if s.receiver == "ref" else "&mut impl Tr"
+        rparams = ", ".join(f"_a{i}: {sig_of(p, i)}" for i, p in enumerate(s.params))
+        real_fn = (f"fn real_prov(_dep: {dep_ty}{', ' if rparams else ''}{rparams}) -> u32 "
+                   f"{{ ev({idx}, \"real_prov\", &[], &[]); 987654 }}\n")
+    trait = real_fn + f"""#[unimock(api=M{unmock_attr}{const_attr})]
 pub trait Tr {{
 {const_item}    fn req0(&self, x: u32) -> u32;
     fn req1(&self, x: u32) -> u32;
     fn req2(&self, x: u32) -> u32;
     fn never(&self) -> u32;
-{reqv_item}    fn prov({recv_sig}{', ' if params else ''}{params}) -> u32{where} {{
+{reqv_item}    fn prov{prov_gen}({recv_sig}{', ' if params else ''}{params}) -> u32{where} {{
 {chr(10).join(body)}
     }}
     fn prov_ref(&self, x: u32) -> u32 {{
@@ -519,6 +538,10 @@ def default_shapes(rng: random.Random, n):
         else:
             s.weak = rng.random() < 0.4
         s.consume = s.receiver in ("owned", "rc", "arc") and rng.random() < 0.4
+        if s.route == "fallthrough" and rng.random() < 0.3:
+            s.params = s.params + [rng.choice(["gen_method", "gen_impl"])]
+        elif s.receiver in ("ref", "mut", "pin") and rng.random() < 0.4:
+            s.prov_unmock = True
         if not d_supported(s):
             s.unmet = False
         if s.route == "clause_next" and s.direct_calls and not s.borrowed_first:
